@@ -47,7 +47,7 @@ type Site struct {
 	Func   string // enclosing function: Name, (T).Name or (*T).Name; closures get the outer name
 	ID     string // line-independent id: "<kind> <operand text>#<k>", k = occurrence index inside Func
 	Kind   string // map | syncmap | untyped
-	Digest string // first 12 hex digits of sha256 of the printed enclosing function (comments dropped)
+	Digest string // first 12 hex digits of sha256 of the site's slice of its function (slice.go; comments dropped)
 	Line   int    // informational only; not emitted into Coq
 }
 
@@ -284,19 +284,21 @@ func (l *loader) scanPkg(rel string, only map[string]bool, res *Result) {
 				continue
 			}
 			fn := funcName(fd)
-			// the digest covers the WHOLE enclosing function: whether a loop's order matters is
-			// decided by what the function does with the loop's result (a sort after it, an early
-			// return inside it), so any edit of the function sends the site back to classification
-			fdDigest := ""
-			funcDigest := func() string {
-				if fdDigest == "" {
-					fdDigest = l.digest(fd)
-				}
-				return fdDigest
+			// the digest covers what the classification depends on inside the function (slice.go):
+			// the loop, the conditions it runs under, and the statements that feed or consume the
+			// variables it touches; whole function when that slice cannot be taken safely
+			var stack []ast.Node
+			siteDigest := func(site ast.Node) string {
+				return l.sliceDigest(info, fd, append([]ast.Node{}, stack...), site)
 			}
 			occ := map[string]int{}
 			uses := map[string]int{}
 			ast.Inspect(fd.Body, func(n ast.Node) bool {
+				if n == nil {
+					stack = stack[:len(stack)-1]
+					return true
+				}
+				stack = append(stack, n)
 				switch x := n.(type) {
 				case *ast.RangeStmt:
 					t := info.TypeOf(x.X)
@@ -311,7 +313,7 @@ func (l *loader) scanPkg(rel string, only map[string]bool, res *Result) {
 					if kind != "" {
 						key := "range " + l.text(x.X)
 						res.Sites = append(res.Sites, Site{File: fname, Func: fn, ID: fmt.Sprintf("%s#%d", key, occ[key]),
-							Kind: kind, Digest: funcDigest(), Line: l.fset.Position(x.Pos()).Line})
+							Kind: kind, Digest: siteDigest(x), Line: l.fset.Position(x.Pos()).Line})
 						occ[key]++
 					}
 				case *ast.CallExpr:
@@ -319,7 +321,7 @@ func (l *loader) scanPkg(rel string, only map[string]bool, res *Result) {
 						if isSyncMap(info.TypeOf(se.X)) {
 							key := "syncmap " + l.text(se.X)
 							res.Sites = append(res.Sites, Site{File: fname, Func: fn, ID: fmt.Sprintf("%s#%d", key, occ[key]),
-								Kind: "syncmap", Digest: funcDigest(), Line: l.fset.Position(x.Pos()).Line})
+								Kind: "syncmap", Digest: siteDigest(x), Line: l.fset.Position(x.Pos()).Line})
 							occ[key]++
 						}
 					}
